@@ -250,3 +250,67 @@ pub fn iter_protocol_with<T, I: Iterator<Item = T>>(
 pub fn iter_protocol<I: Iterator<Item = embedded_graphics::geometry::Point>>(mk: impl Fn() -> I, stride: usize) -> serde_json::Value {
     iter_protocol_with(mk, stride, |p| *p)
 }
+
+/// A `Text` with the given character style, alignment (0 left, 1 center, 2 right), baseline (0 top, 1 bottom, 2 middle,
+/// 3 alphabetic) and line height ((0, pixels) | (1, percent)), constructed along one of the routes of the public API that
+/// must all give the same Text: Text::new / with_baseline / with_alignment where the other settings are the defaults,
+/// Text::with_text_style with a TextStyle from the builder in two call orders, from TextStyle::with_alignment /
+/// with_baseline, from a builder made of another style, or from the public fields.  The route is a function of `salt`.
+pub fn mk_text<'a, S: Clone>(
+    s: &'a str,
+    pos: embedded_graphics::geometry::Point,
+    cs: S,
+    align: u8,
+    base: u8,
+    lh: (u8, u32),
+    salt: usize,
+) -> embedded_graphics::text::Text<'a, S> {
+    use embedded_graphics::text::{Alignment, Baseline, LineHeight, Text, TextStyle, TextStyleBuilder};
+    let a = match align {
+        0 => Alignment::Left,
+        1 => Alignment::Center,
+        _ => Alignment::Right,
+    };
+    let b = match base {
+        0 => Baseline::Top,
+        1 => Baseline::Bottom,
+        2 => Baseline::Middle,
+        _ => Baseline::Alphabetic,
+    };
+    let l = if lh.0 == 0 { LineHeight::Pixels(lh.1) } else { LineHeight::Percent(lh.1) };
+    let default_lh = lh == (1, 100);
+    let route = salt % 6;
+    if default_lh && a == Alignment::Left && b == Baseline::Alphabetic && route % 2 == 0 {
+        return Text::new(s, pos, cs);
+    }
+    if default_lh && a == Alignment::Left && route % 2 == 0 {
+        return Text::with_baseline(s, pos, cs, b);
+    }
+    if default_lh && b == Baseline::Alphabetic && route % 2 == 0 {
+        return Text::with_alignment(s, pos, cs, a);
+    }
+    let ts: TextStyle = match route {
+        1 => TextStyleBuilder::new().line_height(l).baseline(b).alignment(a).build(),
+        2 if default_lh && b == Baseline::Alphabetic => TextStyle::with_alignment(a),
+        2 if default_lh && a == Alignment::Left => TextStyle::with_baseline(b),
+        3 => {
+            let other = TextStyleBuilder::new().alignment(Alignment::Center).baseline(Baseline::Middle).line_height(LineHeight::Pixels(3)).build();
+            TextStyleBuilder::from(&other).alignment(a).baseline(b).line_height(l).build()
+        }
+        4 => {
+            let mut t = TextStyle::default();
+            t.alignment = a;
+            t.baseline = b;
+            t.line_height = l;
+            t
+        }
+        _ => TextStyleBuilder::new().alignment(a).baseline(b).line_height(l).build(),
+    };
+    if route == 5 {
+        // the public fields of Text
+        let mut t = Text::new(s, pos, cs);
+        t.text_style = ts;
+        return t;
+    }
+    Text::with_text_style(s, pos, cs, ts)
+}
